@@ -7,11 +7,16 @@
 #include "stubs/C04_emit.h"
 
 #define C04_EMIT_GHOSTS g_q, g_count, g_args_ok
+#ifdef C04_EMIT_ABSTRACT
+#define C04_SIZE_OK(ret) ((ret)->size <= C04_BIG)
+#else
+#define C04_SIZE_OK(ret) ((ret)->size <= (ret)->cap)
+#endif
 #define C04_MEMBER_LOOP_INV(ret, i, n) \
-  ((i) <= (n) && g_count == (i) && g_q == ((i) == 0 ? C04_Q_OPEN : C04_Q_VALUE) && ((i) == 0 ? (ret)->size == 1 : (ret)->size > 1) && g_args_ok && verif_exc == 0)
+  ((i) <= (n) && g_count == (i) && g_q == ((i) == 0 ? C04_Q_OPEN : C04_Q_VALUE) && ((i) == 0 ? (ret)->size == 1 : (ret)->size > 1) && C04_SIZE_OK(ret) && g_args_ok && verif_exc == 0)
 #define C04_SER_REQ(K) \
   __CPROVER_requires(__CPROVER_is_fresh(self, sizeof(JSONV))) \
-  __CPROVER_requires(self->kind == K && verif_exc == 0) \
+  __CPROVER_requires(self->kind == K && verif_exc == 0 && self->n < C04_BIG) \
   __CPROVER_requires(__CPROVER_is_fresh(ret, sizeof(vstr))) \
   __CPROVER_requires(g_args_ok && g_options == options && g_indent == indent_level && g_format == ((options & SerializeOption_FORMAT) != 0) && g_mode == escape_mode)
 #define C04_SER_ENS \
@@ -31,8 +36,9 @@ C04_SER_REQ(JK_dict_type) C04_SER_ENS;
 void JSON_ser_dict_add_key(vstr* ret, bool format, uint32_t options, size_t indent_level, int escape_mode, const vstr* key, size_t value)
 __CPROVER_requires(__CPROVER_is_fresh(ret, sizeof(vstr)))
 __CPROVER_requires((g_q == C04_Q_OPEN && ret->size == 1) || (g_q == C04_Q_VALUE && ret->size > 1))
+__CPROVER_requires(C04_SIZE_OK(ret) && g_count < C04_BIG)
 __CPROVER_requires(g_args_ok && g_options == options && g_indent == indent_level && g_format == format && g_mode == escape_mode)
-__CPROVER_ensures(g_q == C04_Q_VALUE && g_count == __CPROVER_old(g_count) + 1 && ret->size > 1 && g_args_ok)
+__CPROVER_ensures(g_q == C04_Q_VALUE && g_count == __CPROVER_old(g_count) + 1 && ret->size > 1 && C04_SIZE_OK(ret) && g_args_ok)
 __CPROVER_assigns(ret->size, g_q, g_count, g_args_ok);
 #endif
 #endif
